@@ -102,21 +102,18 @@ def voxelEC (d : Nat) (M : Field) (x : Pt) : Int :=
 def ec3 (n0 n1 n2 : Nat) (M : Field) : Int :=
   sum3 n0 n1 n2 (fun i j k => voxelEC 3 M (i, j, k))
 
-/-- triangles of `EC2d` exactly as written: `if m and v0:` skips a triangle
-    whose first vertex has flat index 0. -/
-def contribSkip0 (tbl : List (List Pt)) (M : Field) (x : Pt) : Int :=
-  (tbl.map (fun s => match s with
-    | [] => 1
-    | v :: _ => if padd x v = (0, 0, 0) then 0 else prodAt M x s)).sum
-
+/-- per-pixel count of `EC2d` as the loops stand: `+` triangles (table `d3`),
+    `−` edges (table `d2`), vertices through `fpmask.sum()`; every triangle is
+    gated by `if m:` only. -/
 def voxelEC2Code (M : Field) (x : Pt) : Int :=
-  fat M x (0, 0, 0) - contrib (table 2 2) M x + contribSkip0 (table 2 3) M x
+  fat M x (0, 0, 0) - contrib (table 2 2) M x + contrib (table 2 3) M x
 
-/-- `EC2d` as written (with the `and v0` test) -/
+/-- `EC2d`: loops over `i < s0-1`, `j < s1-1` of the padded mask -/
 def ec2Code (n0 n1 : Nat) (M : Field) : Int :=
-  sum3 n0 n1 1 (fun i j k => voxelEC2Code M (i, j, k))
+  sumN n0 (fun i => sumN n1 (fun j => voxelEC2Code M (i, j, 0)))
 
-/-- the 2-d count without the `v0` test (what `Lips2d` accumulates in `l0`) -/
+/-- the 2-d complex as the plane `k = 0` of the 3-d grid (generic alternating
+    count; also what `Lips2d` accumulates in `l0`) -/
 def ec2 (n0 n1 : Nat) (M : Field) : Int :=
   sum3 n0 n1 1 (fun i j k => voxelEC 2 M (i, j, k))
 
